@@ -19,7 +19,8 @@ LEVEL = "proof"
 TRUSTED_BASE = [
     "Lean 4.33 kernel",
     "hand-written model GraphiqModel/Model/StabTableau.lean (rref with its eight cases, height_func_list) tied to stabilizer.py/height.py by this correspondence run",
-    "von Neumann entropy of a cut of a stabilizer state = rank(M_A) - |A| = |B| - dim G_B (textbook, Fattal et al.): cited; that height_func_list "
+    "entanglement entropy of a cut of a stabilizer state = |B| - dim G_B (Fattal et al.): now proved in spectral form (C03.height_is_entanglement_entropy: "
+    "the reduced state is 2^-h times a projector of rank 2^h; no matrix-logarithm entropy functional is defined); that height_func_list "
     "computes exactly these numbers (and the adjacency-block rank for graph states) is proved (C03.height_is_entropy_value, height_is_rank_minus_size, "
     "graph_height_is_cut_rank); minimality of max-height emitters for the emission order (Li, Economou, Barnes) is cited, not proved",
     "harness, line protocol, independent Python GF(2) rank",
